@@ -12,6 +12,52 @@ Import ListNotations.
 Local Open Scope string_scope.
 Local Open Scope list_scope.
 
+(** ** classes of ordinary exceptions: whatever its name, an [RExn] is an Exception and none of the
+    instruction classes — decided against the GENERATED class table by going through its rows *)
+Lemma ordinary_class_cases t n :
+  ordinary_class t n = "<ordinary>" \/
+  (In (ordinary_class t n) (map fst t) /\
+   existsb (String.eqb (ordinary_class t n)) instruction_classes = false).
+Proof.
+  unfold ordinary_class. destruct (String.prefix _ n); [|now left].
+  cbv zeta. destruct (existsb (String.eqb _) instruction_classes) eqn:E; [now left|].
+  destruct (existsb _ t) eqn:E2; [|now left]. right. split; [|exact E].
+  apply existsb_exists in E2. destruct E2 as [p [I Q]]. apply String.eqb_eq in Q.
+  rewrite <- Q. now apply in_map.
+Qed.
+
+Ltac class_cases n :=
+  let H := fresh "H" in let HI := fresh "HI" in let HX := fresh "HX" in
+  unfold isinst, class_of;
+  destruct (ordinary_class_cases errors_classes n) as [H|[HI HX]];
+  [rewrite H; vm_compute; reflexivity|];
+  simpl in HI;
+  repeat (destruct HI as [HI|HI];
+          [rewrite <- HI in *; first [vm_compute in HX; discriminate HX | vm_compute; reflexivity]|]);
+  contradiction.
+
+Lemma isinst_exn_exception n m e : isinst errors_classes (ORaise (RExn n m e)) ["Exception"] = true.
+Proof. class_cases n. Qed.
+Lemma isinst_exn_cof_stop n m e :
+  isinst errors_classes (ORaise (RExn n m e)) ["ControlOfFlowInstruction"; "Stop"] = false.
+Proof. class_cases n. Qed.
+Lemma isinst_exn_call n m e : isinst errors_classes (ORaise (RExn n m e)) ["Call"] = false.
+Proof. class_cases n. Qed.
+Lemma isinst_exn_jump n m e : isinst errors_classes (ORaise (RExn n m e)) ["Jump"] = false.
+Proof. class_cases n. Qed.
+Lemma isinst_exn_stop n m e : isinst errors_classes (ORaise (RExn n m e)) ["Stop"] = false.
+Proof. class_cases n. Qed.
+Lemma isinst_exn_stopstepgroup n m e : isinst errors_classes (ORaise (RExn n m e)) ["StopStepGroup"] = false.
+Proof. class_cases n. Qed.
+Lemma isinst_exn_stoppipeline n m e : isinst errors_classes (ORaise (RExn n m e)) ["StopPipeline"] = false.
+Proof. class_cases n. Qed.
+Lemma isinst_exn_handled n m e : isinst errors_classes (ORaise (RExn n m e)) ["HandledError"] = false.
+Proof. class_cases n. Qed.
+
+Ltac exn_simp :=
+  rewrite ?isinst_exn_exception, ?isinst_exn_cof_stop, ?isinst_exn_call, ?isinst_exn_jump,
+          ?isinst_exn_stop, ?isinst_exn_stopstepgroup, ?isinst_exn_stoppipeline, ?isinst_exn_handled.
+
 Lemma andthen_ok_id (r : R) : andthen r (fun s => (OOk, s)) = r.
 Proof. destruct r as [[| | |] s]; reflexivity. Qed.
 
@@ -93,7 +139,7 @@ Section Skeletons.
     unfold gen_run_step_group, run_group. cbv zeta.
     rewrite andthen_ok_id, gen_run_pipeline_steps_is_model, gen_get_pipeline_steps_is_model.
     destruct (run_steps (get_steps lib g s) s) as [[|[n m e|[| | |c|c]]|c|] s1];
-      try reflexivity.
+      cbv beta iota; exn_simp; try reflexivity.
     (* Jump: [isinst] is decided by computation on the generated class table *)
     cbv beta iota. now rewrite andthen_ok_id.
   Qed.
@@ -104,7 +150,8 @@ Section Skeletons.
   Proof.
     unfold gen_run_failure_step_group, run_failure.
     rewrite andthen_ok_id, gen_run_step_group_is_model.
-    destruct (run_group g true s) as [[|[n m e|[| | |c|c]]|c|] s1]; reflexivity.
+    destruct (run_group g true s) as [[|[n m e|[| | |c|c]]|c|] s1];
+      cbv beta iota; exn_simp; reflexivity.
   Qed.
 
   (** [StepsRunner.run_step_groups]: the state's current pipeline does not change while the
@@ -171,15 +218,18 @@ Section Skeletons.
     assert (P2 : pipeline_of lib s = pipeline_of lib s2) by (symmetry; now apply pipeline_of_ext).
     destruct o2 as [|[n m e|[| | |c|c]]|c|]; try reflexivity.
     - (* ordinary error *)
-      cbv beta iota zeta. simpl is_error. cbv iota.
+      cbv beta iota zeta. exn_simp. simpl is_error. cbv iota.
       destruct failure as [[|a fg]|]; try reflexivity.
-      simpl. rewrite andthen_ok_id, P2, gen_run_failure_step_group_is_model.
-      destruct (run_failure (String a fg) s2) as [[|[n' m' e'|[| | |c'|c']]|c'|] s3]; reflexivity.
+      cbv beta iota. change (negb (String.eqb (String a fg) "")) with true. cbv iota.
+      rewrite andthen_ok_id, P2, gen_run_failure_step_group_is_model.
+      destruct (run_failure (String a fg) s2) as [[|[n' m' e'|[| | |c'|c']]|c'|] s3];
+        cbv beta iota; exn_simp; reflexivity.
     - (* HandledError: an Exception too *)
       cbv beta iota zeta. simpl is_error. cbv iota.
       destruct failure as [[|a fg]|]; try reflexivity.
       simpl. rewrite andthen_ok_id, P2, gen_run_failure_step_group_is_model.
-      destruct (run_failure (String a fg) s2) as [[|[n' m' e'|[| | |c'|c']]|c'|] s3]; reflexivity.
+      destruct (run_failure (String a fg) s2) as [[|[n' m' e'|[| | |c'|c']]|c'|] s3];
+        cbv beta iota; exn_simp; reflexivity.
   Qed.
 End Skeletons.
 
@@ -205,13 +255,14 @@ Section StepSkeletons.
     gen_invoke_step (run_body rp sp) rg (reset_prim sp k) s = invoke rg rp sp k s.
   Proof.
     unfold gen_invoke_step, invoke. rewrite andthen_ok_id.
-    destruct (run_body rp sp s) as [[|[n m e|[| | |c|c]]|c|] s1]; try reflexivity.
+    destruct (run_body rp sp s) as [[|[n m e|[| | |c|c]]|c|] s1];
+      cbv beta iota; exn_simp; try reflexivity.
     (* Call *)
     cbv beta iota zeta. change (isinst errors_classes (ORaise (RSig (SCall c))) ["Call"]) with true.
     cbv iota. rewrite andthen_ok_id.
     unfold reset_prim, exn_groups, exn_success_group, exn_failure_group, exn_cof. cbv iota.
     destruct (rg (c_groups c) (c_success c) (c_failure c) s1) as [[|[n m e|[| | |c'|c']]|c'|] s2];
-      reflexivity.
+      cbv beta iota; exn_simp; reflexivity.
   Qed.
 
   (** [Step.run_conditional_decorators] *)
@@ -236,7 +287,7 @@ Section StepSkeletons.
     { destruct (s_retry sp); rewrite andthen_ok_id; [reflexivity|apply gen_invoke_step_is_model]. }
     rewrite E. clear E.
     destruct (match s_retry sp with Some rc => _ | None => _ end) as [[|[n m e|[| | |c|c]]|c|] s1];
-      try reflexivity.
+      cbv beta iota; exn_simp; try reflexivity.
   Qed.
 
   (** [Step.run_foreach_or_conditional] *)
@@ -272,7 +323,7 @@ Section StepSkeletons.
     unfold gen_retry_exec_iteration, retry_iter. cbv zeta. rewrite andthen_ok_id.
     destruct (invoke rg rp sp _ _) as [[|[nm m e|[| | |c|c]]|c|] s1]; try reflexivity.
     - (* ordinary error *)
-      cbv beta iota. simpl isinst. cbv iota.
+      cbv beta iota. exn_simp. cbv iota.
       destruct max as [mx|]; [destruct (Z.eqb mx 0) eqn:E0; simpl negb; cbv iota;
                               [|destruct (Z.eqb n mx) eqn:E1; simpl andb; cbv iota; [reflexivity|]]|];
       simpl exn_error_name; simpl andb; cbv iota;
@@ -336,11 +387,13 @@ Section PipelineSkeleton.
        try reflexivity;
        rewrite ?andthen_ok_id;
        try (match goal with |- context [rg ?a ?b ?c ?d] =>
-              destruct (rg a b c d) as [[|[n' m' e'|[| | |c'|c']]|c'|] s2]; reflexivity end);
-       try (simpl isinst; cbv iota; rewrite ?andthen_ok_id;
+              destruct (rg a b c d) as [[|[n' m' e'|[| | |c'|c']]|c'|] s2];
+              cbv beta iota; exn_simp; reflexivity end);
+       try (exn_simp; cbv iota; rewrite ?andthen_ok_id;
             match goal with
             | |- context [rfail ?a ?d] =>
-                destruct (rfail a d) as [[|[n' m' e'|[| | |c'|c']]|c'|] s2]; reflexivity
+                destruct (rfail a d) as [[|[n' m' e'|[| | |c'|c']]|c'|] s2];
+                cbv beta iota; exn_simp; reflexivity
             | _ => reflexivity
             end)).
   Qed.
@@ -386,14 +439,14 @@ Section PypeSkeleton.
     destruct (get_arguments s) as [pa|n m|]; try reflexivity. simpl lift.
     unfold pype_body. destruct (pa_use_parent pa).
     - destruct (rp _ _ _ _ _ _) as [[|[n m e|[| | |c|c]]|c|] s1]; try reflexivity;
-        simpl; destruct (pa_raise pa); reflexivity.
+        cbv beta iota; exn_simp; simpl; destruct (pa_raise pa); reflexivity.
     - destruct (rp _ _ _ _ _ _) as [o child]. cbv zeta.
       destruct o as [|[n m e|[| | |c|c]]|c|]; try reflexivity;
-        try (simpl; destruct (pa_raise pa); reflexivity).
+        try (cbv beta iota; exn_simp; simpl; destruct (pa_raise pa); reflexivity).
       destruct (pa_out pa) as [out|]; [|reflexivity].
       destruct (py_truth out); [|reflexivity].
       destruct (out_pairs out) as [pairs|]; [|reflexivity].
       destruct (write_out pairs child _) as [[|[n m e|[| | |c|c]]|c|] s1]; try reflexivity;
-        simpl; destruct (pa_raise pa); reflexivity.
+        cbv beta iota; exn_simp; simpl; destruct (pa_raise pa); reflexivity.
   Qed.
 End PypeSkeleton.
